@@ -122,8 +122,8 @@ def run_shard(tier: str, seed: int, shard):
         check_refusals(acc, tier, seed)
         return acc.result()
     for idx, p in enumerate(G.param_sets(cls, tier, seed)):
-        if idx % CHUNKS != chunk:
-            continue
+        if idx % CHUNKS != chunk or p[0] == p[1]:
+            continue  # (a vertical edge has no inverse)
         for h in G.HEIGHTS:
             ys = y_grid(h, tier, seed)
             acc.guard({"term": cls, "params": p, "height": h, "y": ys[0]}, check_term, acc, cls, p, h, ys)
